@@ -76,7 +76,7 @@ pub(super) fn parse(bytes: &[u8]) -> Result<TimeZone, Error> {
     let extra_rule = match footer {
         Some(footer) => {
             let footer = str::from_utf8(footer)?;
-            if !(footer.starts_with('\n') && footer.ends_with('\n')) {
+            if !(footer.len() >= 2 && footer.starts_with('\n') && footer.ends_with('\n')) {
                 return Err(Error::InvalidTzFile("invalid footer"));
             }
 
